@@ -4,7 +4,6 @@ package sim
 
 import (
 	"fmt"
-	"os"
 	"strconv"
 	"strings"
 
@@ -154,9 +153,6 @@ func CheckStructure(t *tree.Tree) (w *Walk, defect string) {
 		if v != 0 {
 			return w, "Edges(): not the branches of the walk"
 		}
-	}
-	if os.Getenv("SKIP_INTERNAL") != "" {
-		return w, ""
 	}
 	in, ex := t.InternalEdges(), t.TipEdges()
 	if len(in)+len(ex) != len(edges) {
